@@ -5,8 +5,17 @@ use crate::monitor::MonitorConfig;
 use crate::thread::pool::{Message, Thread};
 
 use std::panic;
+#[cfg(humphrey_verif_shim)]
+use crate::thread::verif_shim::{spawn, JoinHandle, Mutex, Receiver, Sender};
+#[cfg(humphrey_verif_shim)]
+use std::sync::Arc;
+#[cfg(humphrey_verif_shim)]
+use std::thread::panicking;
+#[cfg(not(humphrey_verif_shim))]
 use std::sync::mpsc::{Receiver, Sender};
+#[cfg(not(humphrey_verif_shim))]
 use std::sync::{Arc, Mutex};
+#[cfg(not(humphrey_verif_shim))]
 use std::thread::{panicking, spawn, JoinHandle};
 
 /// Marker struct to detect thread panics.
